@@ -22,8 +22,8 @@ ASSUMPTIONS = ['for invalid (self-touching) region polygons the code clips with 
                'containment predicates use a 1e-6 buffer; "unchanged" = same point sequence (1e-6) for the baseline and equal shape for an outline that lies inside the region',
                'regions handed to the helper have unique ids']
 N = {'quick': 2000, 'thorough': 60000}
-CLASSES = ['rect', 'concave', 'bowtie', 'nested', 'overlapping', 'mixed', 'mixed', 'edge_touching', 'extractor', 'simple_extractor', 'integer_grid']
-REQUIRED = ['integer_grid_pages', 'redistributions_after_outline_change', 'suffixed_passes', 'bent_lines_placed', 'pocket_lines_checked', 'helper_calls', 'pairs_checked', 'placed_lines', 'inside_lines_placed_unchanged', 'not_touching_pairs', 'multi_entry_lines', 'invalid_region_pairs',
+CLASSES = ['rect', 'concave', 'bowtie', 'nested', 'overlapping', 'mixed', 'mixed', 'edge_touching', 'extractor', 'simple_extractor', 'integer_grid', 'many_cells']
+REQUIRED = ['calls_with_more_than_2^22_line_region_pairs', 'lines_with_a_detached_outline', 'placed_baseline_directions_checked', 'integer_grid_pages', 'redistributions_after_outline_change', 'suffixed_passes', 'bent_lines_placed', 'pocket_lines_checked', 'helper_calls', 'pairs_checked', 'placed_lines', 'inside_lines_placed_unchanged', 'not_touching_pairs', 'multi_entry_lines', 'invalid_region_pairs',
             'extractor_pages', 'multi_orientation_line_only_pages', 'simple_extractor_pages', 'simple_extractor_concave_pages']
 SHARDS = {'quick': 8, 'thorough': 16}
 
@@ -80,6 +80,11 @@ def gen(rng, i, ctx):
                 [[[20, 20], [600, 20], [600, 580], [20, 580]], [[600, 20], [780, 20], [780, 580], [600, 580]]]}
     if cls == 'simple_extractor':
         return {'cls': cls, 'seed': int(rng.integers(0, 1 << 30)), 'n_rows': int(rng.integers(1, 6))}
+    if cls == 'many_cells':
+        # thousands of small regions (table cells) and a thousand short lines, each inside one cell: more than 2^22 line x region pairs in one call (one in six;
+        # otherwise a 12 x 10 table)
+        big = (i // len(CLASSES)) % 60 == 0
+        return {'cls': cls, 'cols': 100 if big else 12, 'rows': 50 if big else 10, 'n_lines': 1000 if big else 40, 'seed': int(rng.integers(0, 1 << 30))}
     if cls == 'integer_grid':
         # coordinates on a 10-px grid (regions drawn by hand, heights rounded): line outlines whose edges run exactly along region edges
         regs, lines = [], []
@@ -177,6 +182,12 @@ def gen(rng, i, ctx):
             y = float(ya + depth) if top else float(yb - depth)
             x0 = float((xa + xb) / 2 - L / 2)
             lines.append({'baseline': [[x0, y], [x0 + L, y]], 'heights': [float(min(depth * 0.6, 8.0)), 1.0], 'kind': 'pocket'})
+    # a few lines whose outline does not cover their baseline (short lines inside a region)
+    for _ in range(int(rng.integers(0, 2))):
+        r = np.array(regs[int(rng.integers(0, len(regs)))])
+        cx, cy = r[:, 0].mean(), r[:, 1].mean()
+        x0, y0, L = float(cx - rng.uniform(5, 40)), float(cy + rng.uniform(-10, 40)), float(rng.uniform(10, 60))
+        lines.append({'baseline': [[x0, y0], [x0 + L, y0 + float(rng.uniform(-3, 3))]], 'heights': [float(rng.uniform(5, 15)), float(rng.uniform(2, 6))], 'kind': 'detached'})
     names = [['r%d' % k for k in range(len(regs))], ['r000', 'r000_1', 'r001', 'r001_1', 'r000_3'][:len(regs)], ['r000_1', 'r000', 'r000_3', 'r001', 'r001_3'][:len(regs)]][int(rng.integers(0, 3))]
     return {'cls': cls, 'regions': regs, 'lines': lines, 'region_ids': names}
 
@@ -190,6 +201,8 @@ def check(case, mon, ctx):
         return check_extractor(case, mon, ctx)
     if case['cls'] == 'simple_extractor':
         return check_simple(case, mon, ctx)
+    if case['cls'] == 'many_cells':
+        return check_many_cells(case, mon, ctx)
     import shapely.geometry as sg
     L, Hh = ctx.L, ctx.H
     names = case.get('region_ids') or ['r%d' % k for k in range(len(case['regions']))]
@@ -197,6 +210,11 @@ def check(case, mon, ctx):
     bls = [np.array(l['baseline'], dtype=np.float64) for l in case['lines']]
     hs = [l['heights'] for l in case['lines']]
     tls = [Hh.baseline_to_textline(b, h) for b, h in zip(bls, hs)]
+    for k_, l_ in enumerate(case['lines']):
+        if l_.get('kind') == 'detached':
+            # the outline was left behind by an earlier stage (it belongs to another part of the line): it lies up-left of the baseline, apart from it in both axes
+            tls[k_] = Hh.baseline_to_textline(bls[k_] - np.array([260.0, 170.0]), hs[k_])
+            mon.count('lines_with_a_detached_outline')
     with contextlib.redirect_stdout(io.StringIO()):
         out = Hh.assign_lines_to_regions([b.copy() for b in bls], hs, [t.copy() for t in tls], regs)
     mon.count('helper_calls')
@@ -243,8 +261,15 @@ def check(case, mon, ctx):
                     mon.violation('placed-baseline-inside-region', dict(w, placed=l.baseline))
                 if not B.buffer(1e-6).contains(lb):
                     mon.violation('placed-baseline-is-a-piece-of-the-detected-baseline', dict(w, placed=l.baseline))
-                lp = sg.Polygon(l.polygon)
-                if not Pv.buffer(1e-6).contains(lp):
+                elif B.is_simple and Pv.boundary.intersection(B).length < 1e-9:       # (a baseline running along an edge of the region: borderline, the overlay may return it in the ring's direction)
+                    # ... in the same direction: its points are met in this order when walking along the detected baseline
+                    along = [B.project(sg.Point(p_)) for p_ in np.asarray(l.baseline, dtype=np.float64)]
+                    mon.count('placed_baseline_directions_checked')
+                    if any(y_ < x_ - 1e-6 for x_, y_ in zip(along, along[1:])):
+                        mon.violation('placed-baseline-is-a-piece-of-the-detected-baseline', dict(w, placed=l.baseline, note='the piece runs against the detected baseline', positions_along_the_baseline=along))
+                if len(l.polygon) == 0:
+                    mon.count('lines_placed_with_an_empty_outline')      # (the detected outline does not reach this region at all: nothing of it is left after clipping)
+                elif not Pv.buffer(1e-6).contains(sg.Polygon(l.polygon)):
                     mon.violation('placed-outline-clipped-to-region', dict(w, outline=l.polygon))
                 if list(l.heights) != list(hs[li]):
                     mon.violation('heights-kept', dict(w, got=l.heights))
@@ -409,3 +434,40 @@ def check_simple(case, mon, ctx):
     mon.count('simple_extractor_pages')
     mon.count('simple_extractor_lines', sum(len(r.lines) for r in out.regions))
     check_page_invariants(out, mon, {'extractor': 'TextlineExtractorSimple', 'seed': case['seed']})
+
+
+def check_many_cells(case, mon, ctx):
+    """a table of cols x rows cells (30 x 24 px each) and short lines, each wholly inside one cell: every line is placed exactly once, in its cell, unchanged"""
+    L, Hh = ctx.L, ctx.H
+    rng = np.random.default_rng(case['seed'])
+    cols, rows, n = case['cols'], case['rows'], case['n_lines']
+    regs = [L.RegionLayout('c%04d' % (r * cols + c), np.array([[30.0 * c, 24.0 * r], [30.0 * c + 30, 24.0 * r], [30.0 * c + 30, 24.0 * r + 24], [30.0 * c, 24.0 * r + 24]])) for r in range(rows) for c in range(cols)]
+    cells = rng.choice(cols * rows, size=n, replace=False)
+    bls, hs = [], []
+    for cell in cells:
+        r, c = divmod(int(cell), cols)
+        y = 24.0 * r + float(rng.uniform(12, 18))
+        bls.append(np.array([[30.0 * c + 4, y], [30.0 * c + 26, y + float(rng.uniform(-1, 1))]]))
+        hs.append([8.0, 3.0])
+    tls = [Hh.baseline_to_textline(b, h) for b, h in zip(bls, hs)]
+    with contextlib.redirect_stdout(io.StringIO()):
+        out = Hh.assign_lines_to_regions([b.copy() for b in bls], hs, [t.copy() for t in tls], regs)
+    mon.count('helper_calls')
+    mon.count('many_cell_pages')
+    if len(bls) * len(regs) > (1 << 22):
+        mon.count('calls_with_more_than_2^22_line_region_pairs')
+    mon.mark_nontrivial()
+    placed = [(r.id, l) for r in out for l in r.lines]
+    ids = [l.id for _, l in placed]
+    if len(ids) != len(set(ids)):
+        mon.violation('line-ids-distinct', {'cells': cols * rows, 'lines': n, 'placed': len(ids), 'distinct': len(set(ids))})
+    by_region = {}
+    for rid, l in placed:
+        by_region.setdefault(rid, []).append(l)
+    missing = 0
+    for k, cell in enumerate(cells):
+        got = by_region.get('c%04d' % int(cell), [])
+        if not any(np.asarray(l.baseline).shape == bls[k].shape and np.abs(np.asarray(l.baseline) - bls[k]).max() <= 1e-6 for l in got):
+            missing += 1
+    if missing or len(placed) != n:
+        mon.violation('line-inside-region-always-placed', {'cells': cols * rows, 'lines': n, 'placed': len(placed), 'lines_not_found_unchanged_in_their_cell': missing})
